@@ -158,7 +158,7 @@ class KaniEngine:
         for h in harnesses:
             mp = self.modpath_of(h["file"])
             parts = mp.split("::")
-            if len(parts) > 2:  # private nested module: reached through the parent's re-export (tools/overlay.py)
+            if len(parts) > 2 and self.name == "e1":  # private nested module: reached through the parent's re-export (tools/overlay.py)
                 mp = "::".join(parts[:-2]) + "::verif_contracts_" + parts[-2]
             lines.append(f'    "{h["name"]}" => crate::{mp}::{h["name"]}(),')
         lines += ["    _ => return false,", "  }", "  true", "}", ""]
@@ -215,6 +215,41 @@ def modpath_e1(contract_file):
         if c == base:
             if rel == "lib.rs":
                 return "verif_contracts"
+            return rel[:-3].replace("/", "::") + "::verif_contracts"
+    raise KeyError(contract_file)
+
+
+# --------------------------------------------------------------------------- E2
+
+def prepare_e2():
+    import overlay_ord
+    dest = os.path.join(VERIF, ".work", "e2")
+    info = overlay_ord.build(dest)
+    reg = os.path.join(dest, "registry.rs")
+    if not os.path.exists(reg):
+        open(reg, "w").write("pub fn run(_: &str) -> bool { false }\n")
+    return {
+        "crate_dir": dest,
+        "sources": {"engine": "E2: real files of /repo/src copied byte-for-byte under a substitute crate root (contracts/ord/shim); "
+                    "one `mod verif_contracts;` line appended to: " + ", ".join(info["appended_mod_line_to"]),
+                    "sha256": info["real_files"], "extracted_items": info["extracted_items"]},
+        "trusted": ["rustc MIR as compiled by Kani's toolchain (nightly-2026-08-21), not the release compiler",
+                    "bitcoin / serde / anyhow / redb / ref-cast dependencies executed as code where reached",
+                    "E2 substitute prelude: the real files are compiled under contracts/ord/shim/{lib,index,inscriptions}.rs instead of "
+                    "ord's own src/lib.rs, src/index.rs, src/inscriptions.rs; identical name resolution is assumed (same crates, same Cargo.lock)",
+                    "E2 shim `struct Index` = the option flags only (index_sats, index_addresses, index_inscriptions, index_runes, index_transactions)"],
+        "assumptions": [],
+    }
+
+
+def modpath_e2(contract_file):
+    import overlay_ord
+    base = os.path.basename(contract_file)
+    for rel, c in overlay_ord.CONTRACTS.items():
+        if c == base:
+            return rel[:-3].replace("/", "::") + "::verif_contracts"
+    for rel, c in overlay_ord.SHIM_CONTRACTS.items():
+        if c == base:
             return rel[:-3].replace("/", "::") + "::verif_contracts"
     raise KeyError(contract_file)
 
@@ -350,4 +385,6 @@ ENGINES = {
     "ev": VerusEngine(),
     "e1": KaniEngine("e1", "contracts/ordinals/*_contracts.rs", prepare_e1, modpath_e1,
                      os.path.join(VERIF, "replay", "e1_runner"), "--cfg ordinals_ord_verif"),
+    "e2": KaniEngine("e2", "contracts/ord/*_contracts.rs", prepare_e2, modpath_e2,
+                     os.path.join(VERIF, "replay", "e2_runner"), "--cfg ordinals_ord_verif"),
 }
